@@ -2935,7 +2935,7 @@ func datagramQueueWakeups(c *Ctx, R string) {
 var wakeExceptions = map[string]string{
 	"ReceiveStream.finalOffset@handleStreamFrameImpl":      "set from a FIN frame; the same call then queues the frame and signals (Push → signalRead); the paths without a signal are the error return and the locally-cancelled stream, whose reader already returned",
 	"ReceiveStream.finalOffset@handleResetStreamFrameImpl": "the reset path signals when it records the remote cancellation; duplicate resets and resets after a local CancelRead change nothing a blocked Read waits for",
-	"ReceiveStream.reliableSize@handleResetStreamFrameImpl": "the first reset signals when it records the remote cancellation. NOT covered: a later RESET_STREAM_AT that lowers the reliable size to or below the read position returns before signalRead — a demonstrated lost wake-up (findings/OBS-resetat-lowered-no-wakeup), but on a stream-level reset path that C17 (connection teardown) does not cover; recorded as an observation, not claimed",
+	"ReceiveStream.reliableSize@handleResetStreamFrameImpl": "the only path from this store to a return without signalRead is the locally cancelled stream (no reader is left); the lowered-reliable-size path, which used to return unsignalled, was a genuine lost wake-up: repaired in 261dc1b and decided by C03.8",
 	"ReceiveStream.cancelledLocally@cancelReadImpl":        "cancelReadImpl signals on the path that queues STOP_SENDING; the early returns are the cases where the error was already read or the peer reset the stream (Read is not blocked any more)",
 	"SendStream.finishedWriting@Close":                     "documented contract: Close must not be called concurrently with Write, so no Write is blocked",
 	"SendStream.nextFrame@popNewStreamFrame":               "signals exactly when the buffered frame was popped completely (then a blocked Write may buffer again); a partially popped frame leaves a remainder and the packer is called again (onHasStreamData), which pops it and signals",
